@@ -1,6 +1,6 @@
 CFG = {
     "jobs": lambda tier: [
-        J("prod", "witness --only D16", needs_repo_bins=["mla-bindings-c"]),
+        J("prod", "witness --only C20", needs_repo_bins=["mla-bindings-c"]),
         J("prod", "c20", needs_repo_bins=["mla-bindings-c"], imports="Base Stream Inst Run RunC20", shard=30),
     ],
     "run_modules": ["RunC20"],
